@@ -96,8 +96,11 @@ class Gen:
             script = self.scripts and r.random() < 0.2
             body = []
             nlines = r.choice([1, 1, 2, 2, 3])
+            # a script recipe is started by its shebang line or, two times in five, by a `[script(...)]` attribute
+            script_attr = script and r.random() < 0.4
             if script:
-                body.append({"quiet": False, "infallible": False, "frags": [lit("#!" + C.VSH)]})
+                if not script_attr:
+                    body.append({"quiet": False, "infallible": False, "frags": [lit("#!" + C.VSH)]})
                 for l in range(nlines):
                     frags = [lit("[S%d.%d]" % (i, l))]
                     for p in range(nparams[i]):
@@ -120,6 +123,7 @@ class Gen:
                     body.append({"quiet": q, "infallible": inf, "frags": frags})
             rc["body"] = body
             rc["script"] = script
+            rc["scriptAttr"] = script_attr
             rc["confirm"] = self.confirm and r.random() < 0.3
             rc["quiet"] = self.quiet_features and r.random() < 0.3
             rc["noQuiet"] = self.quiet_features and r.random() < 0.3
@@ -200,6 +204,8 @@ def print_prog(prog, cfg, extra_settings=""):
         out.append("set quiet")
     if extra_settings:
         out.append(extra_settings)
+    if any(rc.get("scriptAttr") for rc in prog["recipes"]):
+        out.append("set unstable")
     for i, c in enumerate(prog["assigns"]):
         out.append("a%02d := `%s`" % (i, c))
     out.append("")
@@ -208,6 +214,8 @@ def print_prog(prog, cfg, extra_settings=""):
             out.append("[confirm]")
         if rc["noQuiet"]:
             out.append("[no-quiet]")
+        if rc.get("scriptAttr"):
+            out.append("[script('%s')]" % C.VSH)
         head = ("@" if rc["quiet"] else "") + "r%d" % i
         for p, d in enumerate(rc["params"]):
             head += " p%d" % p
